@@ -21,6 +21,8 @@ EXPLANATION = (
     " validate(), GUI) is closed on every path."
     " Added in rounds 8 and 9: (O20.6) every module object import_plugins creates escapes into a module-level"
     " container or sys.modules (plugin classes are held only weakly by __subclasses__())."
+    " Added in round 10: (O20.row) check_row receives the cells of the row, not the typed values the fields"
+    " return."
 )
 ASSUMPTIONS = ["plugins subclass the abstract bases directly (documented); the plugin's own code is not analysed"]
 
